@@ -153,6 +153,8 @@ func checkC18(c InstCase) Verdict {
 		for _, o := range c.St.Ops {
 			if o.Kind == sem.KImm {
 				switch {
+				case sem.OperandBits(c.St) == 8:
+					imm = "byte" // an 8-bit operation has one immediate width only
 				case o.Imm >= -128 && o.Imm <= 127:
 					imm = "s8"
 				case fitsS8(o.Imm, sem.OperandBits(c.St)):
